@@ -16,13 +16,13 @@ template<typename T> static auto word_of(const T& t, long) -> decltype(uint32_t(
 #define C02_CLASSES(X) \
   X(BaseOp, baseOp) X(BaseOpX16, baseOpX16) X(BaseOpImm, baseOpImm) X(BaseR, baseR) X(BaseRR, baseRR) X(BaseRRR, baseRRR) X(BaseRRRR, baseRRRR) \
   X(BaseRRII, baseRRII) X(BaseAdr, baseAdr) X(BaseBfm, baseBfm) X(BaseExtend, baseExtend) X(BaseMvnNeg, baseMvnNeg) X(BaseRM_NoImm, baseRM_NoImm) \
-  X(BaseRM_SImm10, baseRM_SImm10) X(BaseStx, baseStx) X(BaseLdxp, baseLdxp) X(BaseStxp, baseStxp) X(BaseAtomicOp, baseAtomicOp) \
+  X(BaseStx, baseStx) X(BaseLdxp, baseLdxp) X(BaseStxp, baseStxp) X(BaseAtomicOp, baseAtomicOp) \
   X(BaseAtomicSt, baseAtomicSt) X(BaseAtomicCasp, baseAtomicCasp) X(BaseBranchReg, baseBranchReg) X(BaseBranchRel, baseBranchRel) \
   X(BaseBranchCmp, baseBranchCmp) X(BaseBranchTst, baseBranchTst) X(BaseCCmp, baseCCmp) X(BaseCInc, baseCInc) X(BaseCSel, baseCSel) X(BaseCSet, baseCSet) \
   X(BaseExtract, baseExtract) X(BaseBfc, baseBfc) X(BaseBfi, baseBfi) X(BaseBfx, baseBfx) X(BaseMovKNZ, baseMovKNZ) \
   X(ISimdVV, iSimdVV) X(ISimdVVx, iSimdVVx) X(ISimdSV, iSimdSV) X(ISimdVVV, iSimdVVV) X(ISimdVVVx, iSimdVVVx) X(ISimdWWV, iSimdWWV) \
-  X(ISimdVVVI, iSimdVVVI) X(ISimdVVVV, iSimdVVVV) X(ISimdVVVVx, iSimdVVVVx) X(FSimdSV, fSimdSV) X(SimdFcadd, simdFcadd) \
-  X(SimdFccmpFccmpe, simdFccmpFccmpe) X(SimdFcmpFcmpe, simdFcmpFcmpe) X(SimdSm3tt, simdSm3tt)
+  X(ISimdVVVI, iSimdVVVI) \
+  X(SimdFccmpFccmpe, simdFccmpFccmpe) X(SimdFcmpFcmpe, simdFcmpFcmpe)
 
 int main() {
   for (uint32_t id = 1; id < a64::Inst::_kIdCount; id++) {
@@ -34,6 +34,55 @@ int main() {
 #define X(CLS, TBL) case a64::InstDB::kEncoding##CLS: printf("%u %s %s %u\n", id, s.data(), #CLS, word_of(ED::TBL[idx], 0)); break;
       C02_CLASSES(X)
 #undef X
+      // classes with several opcode constants per row: one line per variant "<class>.<variant>", shifted the way the encoder does
+#define V(CLS, VAR, WORD) printf("%u %s %s.%s %u\n", id, s.data(), #CLS, VAR, uint32_t(WORD))
+      case a64::InstDB::kEncodingBaseAddSub: { const auto& d = ED::baseAddSub[idx];
+        V(BaseAddSub, "shifted", uint32_t(d.shifted_op) << 21); V(BaseAddSub, "extended", uint32_t(d.extended_op) << 21); V(BaseAddSub, "immediate", uint32_t(d.immediate_op) << 24); break; }
+      case a64::InstDB::kEncodingBaseCmpCmn: { const auto& d = ED::baseCmpCmn[idx];
+        V(BaseCmpCmn, "shifted", uint32_t(d.shifted_op) << 21); V(BaseCmpCmn, "extended", uint32_t(d.extended_op) << 21); V(BaseCmpCmn, "immediate", uint32_t(d.immediate_op) << 24); break; }
+      case a64::InstDB::kEncodingBaseLogical: { const auto& d = ED::baseLogical[idx];
+        V(BaseLogical, "shifted", uint32_t(d.shifted_op) << 21); if (d.immediate_op) V(BaseLogical, "immediate", uint32_t(d.immediate_op) << 23); break; }
+      case a64::InstDB::kEncodingBaseTst: { const auto& d = ED::baseTst[idx];
+        V(BaseTst, "shifted", uint32_t(d.shifted_op) << 21); if (d.immediate_op) V(BaseTst, "immediate", uint32_t(d.immediate_op) << 22); break; }
+      case a64::InstDB::kEncodingBaseShift: { const auto& d = ED::baseShift[idx];
+        V(BaseShift, "register", d.register_op()); if (d.immediate_op()) V(BaseShift, "immediate", d.immediate_op()); break; }
+      case a64::InstDB::kEncodingBaseMinMax: { const auto& d = ED::baseMinMax[idx];
+        V(BaseMinMax, "register", d.register_op); V(BaseMinMax, "immediate", d.immediate_op); break; }
+      case a64::InstDB::kEncodingBaseLdSt: { const auto& d = ED::baseLdSt[idx];
+        V(BaseLdSt, "uoffset", uint32_t(d.u_offset_op) << 22); V(BaseLdSt, "prepost", (uint32_t(d.pre_post_op) << 21) | (1u << 10));
+        V(BaseLdSt, "register", (uint32_t(d.register_op) << 21) | (1u << 11)); if (d.literal_op) V(BaseLdSt, "literal", uint32_t(d.literal_op) << 24); break; }
+      case a64::InstDB::kEncodingBaseLdpStp: { const auto& d = ED::baseLdpStp[idx];
+        V(BaseLdpStp, "offset", uint32_t(d.offset_op) << 22); if (d.pre_post_op) V(BaseLdpStp, "prepost", uint32_t(d.pre_post_op) << 22); break; }
+      case a64::InstDB::kEncodingBaseRM_SImm9: { const auto& d = ED::baseRM_SImm9[idx];
+        V(BaseRM_SImm9, "offset", d.offset_op()); if (d.pre_post_op()) V(BaseRM_SImm9, "prepost", d.pre_post_op()); break; }
+      case a64::InstDB::kEncodingBaseRM_SImm10: { const auto& d = ED::baseRM_SImm10[idx]; V(BaseRM_SImm10, "opcode", d.opcode()); break; }
+      case a64::InstDB::kEncodingBasePrfm: { const auto& d = ED::basePrfm[idx];
+        V(BasePrfm, "register", (uint32_t(d.register_op) << 21) | (1u << 11)); V(BasePrfm, "soffset", uint32_t(d.s_offset_op) << 22);
+        V(BasePrfm, "uoffset", uint32_t(d.u_offset_op) << 21); V(BasePrfm, "literal", uint32_t(d.literal_op) << 24); break; }
+      case a64::InstDB::kEncodingSimdLdSt: { const auto& d = ED::simdLdSt[idx];
+        V(SimdLdSt, "uoffset", uint32_t(d.u_offset_op) << 22); V(SimdLdSt, "prepost", (uint32_t(d.pre_post_op) << 21) | (1u << 10));
+        V(SimdLdSt, "register", (uint32_t(d.register_op) << 21) | (1u << 11)); if (d.literal_op) V(SimdLdSt, "literal", uint32_t(d.literal_op) << 24); break; }
+      case a64::InstDB::kEncodingSimdLdpStp: { const auto& d = ED::simdLdpStp[idx];
+        V(SimdLdpStp, "offset", uint32_t(d.offset_op) << 22); if (d.pre_post_op) V(SimdLdpStp, "prepost", uint32_t(d.pre_post_op) << 22); break; }
+      case a64::InstDB::kEncodingSimdLdurStur: { const auto& d = ED::simdLdurStur[idx]; V(SimdLdurStur, "opcode", uint32_t(d.opcode) << 10); break; }
+      case a64::InstDB::kEncodingISimdVVVV: { const auto& d = ED::iSimdVVVV[idx]; V(ISimdVVVV, "opcode", uint32_t(d.opcode) << 10); break; }
+      case a64::InstDB::kEncodingISimdVVVVx: { const auto& d = ED::iSimdVVVVx[idx]; V(ISimdVVVVx, "opcode", uint32_t(d.opcode) << 10); break; }
+      case a64::InstDB::kEncodingFSimdSV: { const auto& d = ED::fSimdSV[idx]; V(FSimdSV, "opcode", uint32_t(d.opcode) << 10); break; }
+      case a64::InstDB::kEncodingSimdFcadd: { const auto& d = ED::simdFcadd[idx]; V(SimdFcadd, "opcode", d.opcode()); break; }
+      case a64::InstDB::kEncodingSimdSm3tt: { const auto& d = ED::simdSm3tt[idx]; V(SimdSm3tt, "opcode", uint32_t(d.opcode) << 10); break; }
+      case a64::InstDB::kEncodingFSimdVV: { const auto& d = ED::fSimdVV[idx]; if (d.scalar_op()) V(FSimdVV, "scalar", d.scalar_op()); if (d.vector_op()) V(FSimdVV, "vector", d.vector_op()); break; }
+      case a64::InstDB::kEncodingFSimdVVV: { const auto& d = ED::fSimdVVV[idx]; if (d.scalar_op()) V(FSimdVVV, "scalar", d.scalar_op()); if (d.vector_op()) V(FSimdVVV, "vector", d.vector_op()); break; }
+      case a64::InstDB::kEncodingFSimdVVVV: { const auto& d = ED::fSimdVVVV[idx]; if (d.scalar_op()) V(FSimdVVVV, "scalar", d.scalar_op()); if (d.vector_op()) V(FSimdVVVV, "vector", d.vector_op()); break; }
+      case a64::InstDB::kEncodingFSimdVVVe: { const auto& d = ED::fSimdVVVe[idx];
+        if (d.scalar_op()) V(FSimdVVVe, "scalar", d.scalar_op()); if (d.vector_op()) V(FSimdVVVe, "vector", d.vector_op());
+        V(FSimdVVVe, "element_scalar", d.element_scalar_op()); V(FSimdVVVe, "element_vector", d.element_vector_op()); break; }
+      case a64::InstDB::kEncodingFSimdPair: { const auto& d = ED::fSimdPair[idx]; V(FSimdPair, "scalar", d.scalar_op()); V(FSimdPair, "vector", d.vector_op()); break; }
+      case a64::InstDB::kEncodingISimdVVVe: { const auto& d = ED::iSimdVVVe[idx];
+        V(ISimdVVVe, "regular", uint32_t(d.regular_op) << 10); V(ISimdVVVe, "element", uint32_t(d.element_op) << 10); break; }
+      case a64::InstDB::kEncodingSimdShift: { const auto& d = ED::simdShift[idx];
+        if (d.register_op) V(SimdShift, "register", uint32_t(d.register_op) << 10); if (d.immediate_op) V(SimdShift, "immediate", uint32_t(d.immediate_op) << 10); break; }
+      case a64::InstDB::kEncodingSimdShiftES: { const auto& d = ED::simdShiftES[idx]; V(SimdShiftES, "opcode", uint32_t(d.opcode) << 10); break; }
+#undef V
       default: break;
     }
   }
